@@ -74,6 +74,34 @@ pub fn viol(rep: &mut Report, what: &str, key: &str, input: Value) {
     }
 }
 
+/// Per-case watchdog of a worker: a case that is still running after `secs`
+/// seconds (deadlock on a corrupted list handle, endless loop) ends the worker
+/// with exit status 3; the parent sees the last `START <index>` and resumes
+/// after it.
+pub static CASE_STARTED: std::sync::atomic::AtomicU64 = std::sync::atomic::AtomicU64::new(0);
+fn now_ms() -> u64 {
+    std::time::SystemTime::now()
+        .duration_since(std::time::UNIX_EPOCH)
+        .map(|d| d.as_millis() as u64)
+        .unwrap_or(0)
+}
+pub fn case_begins() {
+    CASE_STARTED.store(now_ms(), std::sync::atomic::Ordering::SeqCst);
+}
+pub fn start_watchdog(secs: u64) {
+    case_begins();
+    std::thread::spawn(move || {
+        loop {
+            std::thread::sleep(Duration::from_millis(200));
+            let started = CASE_STARTED.load(std::sync::atomic::Ordering::SeqCst);
+            if now_ms().saturating_sub(started) > secs * 1000 {
+                println!("CASE-TIMEOUT");
+                std::process::exit(3);
+            }
+        }
+    });
+}
+
 pub fn strip_ansi(s: &str) -> String {
     let mut out = String::new();
     let mut it = s.chars().peekable();
@@ -477,15 +505,17 @@ fn run_layout_case(
     }
 }
 
-fn worker_layout(seed: u64, from: u64, n: u64) {
+fn worker_layout(seed: u64, base: u64, from: u64, n: u64) {
     std::panic::set_hook(Box::new(|_| {}));
     let rt = layout_runtime();
     let mut drv = Driver::spawn().expect("driver");
     let mut rep = Report::default();
     let mut seen = BTreeSet::new();
+    start_watchdog(6);
     for idx in from..from + n {
         println!("START {idx}");
-        let mut p = Prng::for_case(seed, idx);
+        case_begins();
+        let mut p = Prng::for_case(seed, base + idx);
         let script = layout_script(&mut p);
         run_layout_case(&script, &rt, &mut drv, &mut seen, &mut rep);
     }
@@ -509,32 +539,58 @@ fn main() {
             let s = seed.to_string();
             // corpus first
             beh::corpus(&mut rep);
-            run_batches(&["layout", &s], n_layout, 100, Duration::from_secs(300), &mut rep, |rep, idx, ended| {
-                let mut p = Prng::for_case(seed, idx);
-                let script = layout_script(&mut p);
-                rep.violation(
-                    &format!("questioning the lowerer about the types of a well-typed script kills the process: {}", ended_str(ended)),
-                    "crash layout",
-                    json!({"kind": "layout", "script": script}),
-                );
-            });
-            run_batches(&["beh", &s], n_beh, 50, Duration::from_secs(300), &mut rep, |rep, idx, ended| {
-                let case = beh::gen_case(seed, idx);
-                rep.violation(
-                    &format!("compiling / running a well-typed script kills the process: {}", ended_str(ended)),
-                    "crash beh",
-                    beh::case_json(&case),
-                );
-            });
+            // in chunks, so that a tree on which many cases crash or hang ends
+            // the phase after a handful of witnesses instead of paying the
+            // time limit hundreds of times
+            let crashes = std::cell::Cell::new(0u32);
+            let chunk = 250u64;
+            let mut base = 0u64;
+            while base < n_layout && crashes.get() < 6 {
+                let sb = format!("{seed}:{base}");
+                run_batches(&["layout", &sb], chunk.min(n_layout - base), 50, Duration::from_secs(240), &mut rep, |rep, idx, ended| {
+                    crashes.set(crashes.get() + 1);
+                    let mut p = Prng::for_case(seed, base + idx);
+                    let script = layout_script(&mut p);
+                    viol(
+                        rep,
+                        &format!("questioning the lowerer about the types of a well-typed script kills the process: {}", ended_str(ended)),
+                        "crash layout",
+                        json!({"kind": "layout", "script": script}),
+                    );
+                });
+                base += chunk;
+            }
+            crashes.set(0);
+            let mut base = 0u64;
+            while base < n_beh && crashes.get() < 6 {
+                let sb = format!("{seed}:{base}");
+                run_batches(&["beh", &sb], chunk.min(n_beh - base), 50, Duration::from_secs(240), &mut rep, |rep, idx, ended| {
+                    crashes.set(crashes.get() + 1);
+                    let case = beh::gen_case(seed, base + idx);
+                    viol(
+                        rep,
+                        &format!("compiling / running a well-typed script kills the process or never ends: {}", ended_str(ended)),
+                        "crash beh",
+                        beh::case_json(&case),
+                    );
+                });
+                base += chunk;
+            }
+            if crashes.get() >= 6 {
+                rep.notes.push("behavioural phase stopped early after 6 crashed / hanging cases".into());
+            }
             rep.emit();
         }
         Some("worker") => {
-            let seed: u64 = args[3].parse().expect("seed");
-            let from: u64 = args[4].parse().expect("from");
+            let (seed, base): (u64, u64) = match args[3].split_once(':') {
+                Some((a, b)) => (a.parse().expect("seed"), b.parse().expect("base")),
+                None => (args[3].parse().expect("seed"), 0),
+            };
+            let from: u64 = args[4].parse::<u64>().expect("from");
             let n: u64 = args[5].parse().expect("n");
             match args[2].as_str() {
-                "layout" => worker_layout(seed, from, n),
-                "beh" => beh::worker(seed, from, n),
+                "layout" => worker_layout(seed, base, from, n),
+                "beh" => beh::worker(seed, base, from, n),
                 "beh-one" => beh::replay_in_worker(&args[6]),
                 _ => std::process::exit(64),
             }
@@ -564,6 +620,7 @@ fn main() {
 
 pub fn ended_str(e: &Ended) -> String {
     match e {
+        Ended::Exit(3, _) => "the case did not finish within its time limit (hang / deadlock)".to_string(),
         Ended::Exit(c, s) => format!("exit {c}: {}", strip_ansi(s).lines().rev().take(3).collect::<Vec<_>>().join(" / ")),
         Ended::Signal(s, err) => format!("signal {s}: {}", strip_ansi(err).lines().rev().take(3).collect::<Vec<_>>().join(" / ")),
         Ended::Timeout => "timeout".into(),
